@@ -58,9 +58,12 @@ def deriveInit (env : Env) (votes : List Vote) : InitLists :=
   let c := collectInit env votes
   if c.isEmpty then ⟨some [], some []⟩ else ⟨some (c.map (·.1)), some (c.map (·.2))⟩
 
+/-- Go's `int64(x)` for a `uint64` -/
+def toInt64 (n : Nat) : Int := if n % 18446744073709551616 < 9223372036854775808 then (n % 18446744073709551616 : Nat) else ((n % 18446744073709551616 : Nat) : Int) - 18446744073709551616
+
 structure ValsetLists where
   ops : Option (List String)
-  tss : Option (List Nat)
+  tss : Option (List Int)          -- `int64(timestamp)`
   sigs : Option (List Bytes)
   deriving Repr, DecidableEq
 
@@ -78,7 +81,7 @@ def collectValset (votes : List Vote) : List (String × Nat × Bytes) :=
 /-- `CheckValsetSignaturesFromLastCommit` -/
 def deriveValset (votes : List Vote) : ValsetLists :=
   let c := collectValset votes
-  ⟨toSlice (c.map (·.1)), toSlice (c.map (·.2.1)), toSlice (c.map (·.2.2))⟩
+  ⟨toSlice (c.map (·.1)), toSlice (c.map (fun x => toInt64 x.2.1)), toSlice (c.map (·.2.2))⟩
 
 structure AttLists where
   atts : Option (List Bytes)
@@ -127,5 +130,11 @@ def registrations (inj : Injected) : List (String × String) :=
 /-- address recovery as the code performs it: slicing `sig[:64]` panics on a shorter signature -/
 def recoverOrPanic (env : Env) (a b : Bytes) : Option (Option String) :=
   if a.length < 64 ∨ b.length < 64 then none else some (env.recover a b)
+
+/-- `Keeper.SetOracleAttestation`: the signature is written at every index of `set` holding the signer's EVM address
+(`OracleAttestations.SetAttestation` ignores indexes beyond the slot list).  After fix c849ea3 `set` is the validator set of
+the checkpoint the snapshot commits to; before, it was the last saved set. -/
+def placeAtt (set : List String) (slots : List Bytes) (addr : String) (sig : Bytes) : List Bytes :=
+  slots.mapIdx (fun i s => if set[i]? = some addr then sig else s)
 
 end Layer.Proposal
